@@ -14,6 +14,7 @@
 (*   snap     [r, h, snap]           Snapshot() taken, contents read at once     *)
 (*   snapread [h, snap]              the same snapshot value read again later    *)
 (*   restore  [r, h, ok]             RestoreAt(snapshot h) and its success       *)
+(*   snaphand [h, node]              the host writes snapshot h by hand          *)
 (*   rebind   [r, what, name, kind]  AddFunction ("f") / AddCommand ("c") of a   *)
 (*                                   handler of behaviour class `kind`           *)
 (*   restorebad [r, ok, obs...]      RestoreAt(a snapshot naming an unknown node)*)
@@ -126,6 +127,11 @@ StepSnap(e) ==
         ELSE /\ snaps' = [h \in (DOMAIN snaps) \cup {e.h} |-> IF h = e.h THEN sn ELSE snaps[h]]
              /\ UNCHANGED <<rs, skip, bad>>
 
+\* a snapshot written by the host: &Snapshot{CurrentNode: node} (no variables, no visits)
+StepSnapHand(e) ==
+  /\ snaps' = [h \in (DOMAIN snaps) \cup {e.h} |-> IF h = e.h THEN HandSnap(P, e.node) ELSE snaps[h]]
+  /\ UNCHANGED <<rs, skip, bad, stats>>
+
 \* a snapshot is a self-contained value: nothing done afterwards changes it
 StepSnapRead(e) ==
   /\ stats' = Bump("checked")
@@ -178,6 +184,7 @@ TraceStep ==
                          /\ rs' = [rs EXCEPT ![e.r] = Rebind(rs[e.r], e.what, e.name, e.kind)]
                          /\ UNCHANGED <<snaps, skip, bad, stats>>
                     [] e.ev = "snap" -> StepSnap(e)
+                    [] e.ev = "snaphand" -> StepSnapHand(e)
                     [] e.ev = "snapread" -> StepSnapRead(e)
                     [] e.ev = "restore" -> StepRestore(e)
                     [] e.ev = "restorebad" -> StepRestoreBad(e)
